@@ -277,6 +277,35 @@ func runRestStep(sv *restServer, s restStep) (labels []string, nt bool, err erro
 			return fail("POST /totp/validate without timestamp rejects the code of the current hour: %s -> %s", body, r.brief())
 		}
 		return labels, true, nil
+	case "chain-ocra-both":
+		// raw_suite AND a structured suite in one request: which one wins is not specified, but the code
+		// /ocra/generate returns must validate at /ocra/validate for the very same request data
+		both := func(code *string) []byte {
+			var m map[string]any
+			b, _, _ := s.ocraBody(code)
+			json.Unmarshal(b, &m)
+			m["raw_suite"] = s.RawName
+			c2 := s.Cfg
+			m["suite"] = map[string]any{"hash_function": s.HashStr, "code_digits": c2.Digits, "challenge_format": c2.QFormat, "include_counter": c2.C, "include_challenge": c2.Q,
+				"include_password": c2.P, "include_session": c2.S, "include_timestamp": c2.T, "password_hash": c2.PHash, "timestep": c2.TimeStep}
+			out, _ := json.Marshal(m)
+			return out
+		}
+		b1 := both(nil)
+		r := post("/ocra/generate", b1)
+		if r.Err != nil {
+			return fail("POST /ocra/generate %s -> %s", b1, r.brief())
+		}
+		if r.Status != 200 {
+			return append(labels, "refused"), true, nil
+		}
+		code := r.str("code")
+		b2 := both(&code)
+		r2 := post("/ocra/validate", b2)
+		if r2.Status != 200 || r2.JSON["valid"] != true {
+			return fail("code %q generated by /ocra/generate for a request with raw_suite and suite is rejected by /ocra/validate for the same data: %s -> %s", code, b2, r2.brief())
+		}
+		return labels, true, nil
 	case "ocra-gen", "ocra-val", "chain-ocra":
 		body, cfg, usable := s.ocraBody(nil)
 		in := norm(s.In)
@@ -506,7 +535,7 @@ var c18Main = newPart("C18", "endpoints",
 
 func drawRestStep(t *rapid.T) restStep {
 	s := restStep{Ep: rapid.SampledFrom([]string{"totp-gen", "totp-gen", "totp-val", "totp-val", "hotp-gen", "hotp-gen", "hotp-val", "hotp-val", "ocra-gen", "ocra-gen", "ocra-val", "ocra-val",
-		"suites", "suite", "url", "secret", "chain-totp", "chain-hotp", "chain-ocra", "totp-val-now"}).Draw(t, "ep")}
+		"suites", "suite", "url", "secret", "chain-totp", "chain-hotp", "chain-ocra", "totp-val-now", "chain-ocra-both"}).Draw(t, "ep")}
 	s.Key = rapid.SliceOfN(rapid.Byte(), 1, 70).Draw(t, "key")
 	s.Sp = gen.DrawSpelling(t)
 	s.Fresh = rapid.IntRange(0, 5).Draw(t, "fresh") == 0
@@ -589,6 +618,17 @@ func drawRestStep(t *rapid.T) restStep {
 			s.In.Q = append(s.In.Q, make([]byte, 129)...) // challenge too long (if selected)
 		}
 		s.Mut = rapid.SampledFrom([]int{0, 0, 1, 2, 3}).Draw(t, "mut")
+	case "chain-ocra-both":
+		// a registered name plus a structured twin (same or different digits/hash); inputs admissible for both
+		s.RawName = rapid.SampledFrom(registeredNames).Draw(t, "rawName")
+		rd, _ := ref.ReadSuite(s.RawName, true)
+		s.Cfg = rd.Cfg
+		s.HashStr = []string{"SHA1", "SHA256", "SHA512"}[rd.Cfg.Hash]
+		if rapid.Bool().Draw(t, "twinDiffers") {
+			s.Cfg.Digits = 4 + (rd.Cfg.Digits+1)%7
+			s.HashStr = rapid.SampledFrom([]string{"SHA1", "SHA256", "SHA512"}).Draw(t, "twinHash")
+		}
+		s.In = drawAdmissible(t, rd.Cfg)
 	case "suite":
 		s.RawName = rapid.SampledFrom(registeredNames).Draw(t, "rawName")
 	case "url":
